@@ -1,13 +1,13 @@
 //! C11: flatten / unflatten regroup elements in row-major order over the same storage.
 //! Encodings: see coq/theories/CorrC11.v.
 //!
-//! case = op, ety, sz, A, B, wi, wv    (ety 0 u32, 1 Tr, 2 Tz; sz = size_of::<T>())
+//! case = op, ety, sz, A, B, wi, wv    (ety 0 u32, 1 Tr, 2 Tz, 3 Tb: one byte with a destructor, identities mod 256; sz = size_of::<T>())
 //! op 0/1/2 flatten owned / & / &mut with (N, M) = (A, B), leaf (i, j) has id 1000*i + j
 //! op 3/4/5 unflatten owned / & / &mut with (NM, N) = (A, B), element k has id 7*k + 3
 use generic_array::sequence::{Flatten, GenericSequence, Unflatten};
 use generic_array::typenum::*;
 use generic_array::{ArrayLength, GenericArray};
-use harness::track::{self, Ev, Tr, Tz};
+use harness::track::{self, Ev, Tb, Tr, Tz};
 use harness::*;
 use std::mem::{size_of, size_of_val};
 use std::ops::{Div, Mul};
@@ -37,6 +37,17 @@ impl Elem for Tr {
     }
     fn set(&mut self, id: i64) {
         self.id = id
+    }
+}
+impl Elem for Tb {
+    fn mk(id: i64) -> Tb {
+        Tb::new(id)
+    }
+    fn id(&self) -> i64 {
+        self.0 as i64
+    }
+    fn set(&mut self, id: i64) {
+        self.0 = id as u8
     }
 }
 impl Elem for Tz {
@@ -283,6 +294,7 @@ macro_rules! pairs {
                 r = Some(match $ety {
                     0 => $f::<u32, $x, $y>($case),
                     1 => $f::<Tr, $x, $y>($case),
+                    3 => $f::<Tb, $x, $y>($case),
                     _ => $f::<Tz, $x, $y>($case),
                 });
             }
@@ -332,6 +344,7 @@ fn size_of_ety(ety: i128) -> i128 {
     (match ety {
         0 => size_of::<u32>(),
         1 => size_of::<Tr>(),
+        3 => size_of::<Tb>(),
         _ => size_of::<Tz>(),
     }) as i128
 }
@@ -391,7 +404,7 @@ fn main() {
         }
     }
     un_pairs.extend([(1024, 1), (1024, 1024), (1024, 16), (1024, 64)]);
-    for ety in 0..3i128 {
+    for ety in 0..4i128 {
         let sz = size_of_ety(ety);
         for &(n, m) in &fl_pairs {
             let len = n * m;
